@@ -257,16 +257,15 @@ class MultipartDecoder:
 
         if self.buffer.find(boundary) == -1:
             # No complete boundary in the buffer, but there may be
-            # a partial boundary at the end. As the boundary
-            # starts with either a nl or cr find the earliest and
-            # return up to that as data.
-            data_end = del_index = self.last_newline(data[data_start:]) + data_start
-            # If amount of data after last newline is far from
-            # possible length of partial boundary, we should
-            # assume that there is no partial boundary in the buffer
-            # and return all pending data.
-            if (len(data) - data_end) > len(b"\n" + boundary):
-                data_end = del_index = len(data)
+            # a partial boundary at the end. As the boundary starts
+            # with a line break, return the data up to the first line
+            # break that is close enough to the end to start one.
+            # Anything before that cannot be part of a boundary.
+            tail = max(data_start, len(data) - len(b"\r\n" + boundary) + 1)
+            line_break = LINE_BREAK_RE.search(data, tail)
+            data_end = del_index = (
+                len(data) if line_break is None else line_break.start()
+            )
             more_data = True
         else:
             match = self.boundary_re.search(data)
